@@ -2,6 +2,7 @@
 import os, sys
 sys.path.insert(0, os.path.dirname(os.path.abspath(__file__)))
 import _harbor
+import _lend
 
 META = dict(
     category="model_checking",
@@ -13,4 +14,8 @@ META = dict(
 
 
 def run(c):
-    return _harbor.run(c, ['okBids', 'closingBids', 'priceChecks', 'auctionBlocks', 'externalAuctions', 'externalCloses', 'bonusBids'])
+    # vault side (harbor family: V2 sweep / liquidate messages / Dutch auctions) and borrow side (lend family) of the property
+    c.defer = True
+    _harbor.run(c, ['okBids', 'closingBids', 'priceChecks', 'auctionBlocks', 'externalAuctions', 'externalCloses', 'bonusBids'])
+    _lend.run(c)
+    return c.finish_all(["harbor", "lend"])
